@@ -1195,7 +1195,7 @@ package ice
 //@   ensures[C05] err == nil && i.normBits1Hit == 0 ==> upos(i.freqNormReader) == old(upos(i.freqNormReader)) + 2
 //@ func (*PostingsIterator).currChunkNext
 //@   requires[C05] i.includeFreqNorm && i.includeLocs ==> i.freqNormReader != i.locReader
-//@   ensures[C05] @skips_one_record result0 == nil && i.normBits1Hit == 0 && i.includeFreqNorm ==> i.currChunk == nChunk && len(i.freqNormReader.curChunkBytes) != 0 && upos(i.freqNormReader) == ite(old(i.currChunk) == nChunk && old(len(i.freqNormReader.curChunkBytes)) != 0, old(upos(i.freqNormReader)), 0) + 2
+//@   ensures[C05,C13] @skips_one_record result0 == nil && i.normBits1Hit == 0 && i.includeFreqNorm ==> i.currChunk == nChunk && len(i.freqNormReader.curChunkBytes) != 0 && upos(i.freqNormReader) == ite(old(i.currChunk) == nChunk && old(len(i.freqNormReader.curChunkBytes)) != 0, old(upos(i.freqNormReader)), 0) + 2
 //@   ensures[C05] i.freqNormReader == old(i.freqNormReader)
 //@ axiom cstart-div2 (c int, d int, cs int) : cs >= 1 && c >= 0 && d >= cstart(c, cs) ==> d / cs >= c pattern cstart(c, cs), d / cs
 //@
@@ -1630,7 +1630,7 @@ package ice
 //@ // ---- C15: the merged field list is built in memory of its own: the input segments' field
 //@ // lists (returned by Fields() without copying) are only read ----
 //@ func mergeFields
-//@   loop 2 invariant[C15] fresh(fields) && forall(j, 0, len(segments), segments[j] != nil ==> segments[j].fieldsInv == old(segments[j].fieldsInv) && contents(segments[j].fieldsInv) == old(contents(segments[j].fieldsInv)))
+//@   loop 2 invariant[C03,C06,C15] fresh(fields) && forall(j, 0, len(segments), segments[j] != nil ==> segments[j].fieldsInv == old(segments[j].fieldsInv) && contents(segments[j].fieldsInv) == old(contents(segments[j].fieldsInv)))
 //@   ensures[C15] @input_field_lists_untouched forall(j, 0, len(segments), segments[j] != nil ==> segments[j].fieldsInv == old(segments[j].fieldsInv) && contents(segments[j].fieldsInv) == old(contents(segments[j].fieldsInv)))
 //@
 //@ // ---------------------------------------------------------------------------
@@ -1763,6 +1763,42 @@ package ice
 //@   at call:encoding/binary.Uvarint#0 lemma[C06,C10] arr(metaLenData) == arr(uncompressed) && off(metaLenData) == off(uncompressed) + storedOffset
 //@   at call:encoding/binary.Uvarint#1 lemma[C06,C10] arr(dataLenData) == arr(uncompressed) && off(dataLenData) == off(uncompressed) + storedOffset + gn0
 //@   ensures[C06,C10] @header_is_meta_length_then_data_length err == nil ==> metaLen == gh0 && dataLen == gh1 && n == gn0 + gn1
+//@
+//@ // ---- C02/C07: the doc values merged for a field come, in every input segment, from that
+//@ // segment's reader for the field of that NAME (ids are per segment: lists differ between inputs) ----
+//@ func buildMergedDocVals
+//@   at call:(*docValueReader).cloneInto#0 lemma[C02,C07] dvIter == seg.fieldDvReaders[uint16(seg.fieldsMap[fieldName] - 1)]
+//@
+//@ // ---- C03/C06: the byte-copy path of the stored section is taken only when every input
+//@ // segment's (non-empty) field list is identical to the first one's: same length, same names in
+//@ // the same positions (stored records carry segment-local field ids) ----
+//@ ghostvar oix int
+//@ func (*Segment).Fields
+//@   ensures[C03,C06,C15] result0 == s.fieldsInv
+//@ func mergeFields
+//@   at call:(*Segment).Fields#1 ghostset oix = rangeindex + 1
+//@   loop 0 invariant[C03,C06] (len(segments) > 0 ==> segment0Fields == segments[0].fieldsInv) && (same ==> forall(j, 0, rangeindex + 1, (segments[j] != nil && len(segments[j].fieldsInv) > 0 ==> len(segments[j].fieldsInv) == len(segment0Fields) && forall(k, 0, len(segment0Fields), segments[j].fieldsInv[k] == segment0Fields[k]))))
+//@   loop 1 invariant[C03,C06] 0 <= oix && oix < len(segments) && fields == segments[oix].fieldsInv && (len(segments) > 0 ==> segment0Fields == segments[0].fieldsInv)
+//@   loop 1 invariant[C03,C06] same ==> forall(j, 0, oix, (segments[j] != nil && len(segments[j].fieldsInv) > 0 ==> len(segments[j].fieldsInv) == len(segment0Fields) && forall(k, 0, len(segment0Fields), segments[j].fieldsInv[k] == segment0Fields[k])))
+//@   loop 1 invariant[C03,C06] same ==> (rangeindex >= 0 ==> len(segment0Fields) == len(fields)) && forall(k, 0, rangeindex + 1, segment0Fields[k] == fields[k])
+//@   ensures[C03,C06] @same_means_identical_field_lists same && len(segments) > 0 && segments[0] != nil ==> forall(j, 0, len(segments), (segments[j] != nil && len(segments[j].fieldsInv) > 0 ==> len(segments[j].fieldsInv) == len(segments[0].fieldsInv) && forall(k, 0, len(segments[0].fieldsInv), segments[j].fieldsInv[k] == segments[0].fieldsInv[k])))
+//@
+//@ // ---- C07: a document's doc-value bytes are split at every separator: each term handed to the
+//@ // visitor is the run of bytes up to the next separator (possibly empty: the empty term is a
+//@ // term), and the walk ends only when no separator is left ----
+//@ func (*docValueReader).visitDocValues
+//@   // the separator slice is the package's one-byte []byte{0xff}: nothing in the package stores to it or its element
+//@   // (globals inventory); the visitor callback cannot reach it
+//@   at call:bytes.Index#0 assume len(termSeparatorSplitSlice) == 1 && termSeparatorSplitSlice[0] == 255
+//@   lemma[C07] result0 == nil ==> forall(k, 0, len(uncompressed), uncompressed[k] != 255)
+//@
+//@ // ---- C10/C07: the doc-value trailer. One end offset per chunk of the field's chunk table
+//@ // (every chunk, also the empty ones behind the last chunk holding data), then the byte length
+//@ // of that table, then the number of chunks = the number of table entries ----
+//@ func (*chunkedContentCoder).Write
+//@   at call:(encoding/binary.bigEndian).PutUint64#0 lemma[C07,C10] len(chunkOffsets) == len(c.chunkLens) && arr(chunkOffsets) == arr(c.chunkLens) && off(chunkOffsets) == off(c.chunkLens)
+//@   at call:(encoding/binary.bigEndian).PutUint64#0 lemma[C07,C10] be64(contents(c.final), off(c.final)) == chunkOffsetsLen && chunkOffsetsLen == tw - chunkOffsetsStart
+//@   at call:(encoding/binary.bigEndian).PutUint64#1 lemma[C07,C10] be64(contents(c.final), off(c.final)) == len(c.chunkLens)
 //@
 //@ // ---- C10/C01: the int-coder stream header: the number of chunks (= entries of the coder's
 //@ // chunk table) as a uvarint, then one end offset per chunk ----
